@@ -671,20 +671,43 @@ func (c *Check) ruleReadIsFresh(rule string, a *repoAnchors) {
 		return
 	}
 	cache := map[*types.Var]bool{}
-	for _, ret := range returnsOf(fn) {
-		for _, v := range resultValues(ret, 0) {
-			for _, x := range rootsAll(v) {
-				if fa, ok := x.(*ssa.FieldAddr); ok {
-					if f := fieldOfAddr(fa); f != nil && f != a.store {
-						cache[f] = true
-					}
+	collect := func(g *ssa.Function, skip map[*types.Var]bool) {
+		repoT := c.P.NamedType("storage", "BlockRepository")
+		ofRepo := func(f *types.Var) bool {
+			if repoT == nil {
+				return true
+			}
+			st, _ := repoT.Underlying().(*types.Struct)
+			for i := 0; st != nil && i < st.NumFields(); i++ {
+				if st.Field(i) == f {
+					return true
 				}
-				if u, ok := x.(*ssa.UnOp); ok {
-					if f := anyFieldLoad(u); f != nil && f != a.store {
-						cache[f] = true
+			}
+			return false
+		}
+		for _, ret := range returnsOf(g) {
+			for _, v := range resultValues(ret, 0) {
+				for _, x := range rootsAll(v) {
+					if fa, ok := x.(*ssa.FieldAddr); ok {
+						if f := fieldOfAddr(fa); f != nil && !skip[f] && ofRepo(f) {
+							cache[f] = true
+						}
+					}
+					if u, ok := x.(*ssa.UnOp); ok {
+						if f := anyFieldLoad(u); f != nil && !skip[f] && ofRepo(f) {
+							cache[f] = true
+						}
 					}
 				}
 			}
+		}
+	}
+	collect(fn, map[*types.Var]bool{a.store: true})
+	// the by-height getters answer from read() or from the newest file held in lastHeaders; a further
+	// field they can answer from (a memo of the last file parsed) is a cache as well
+	for _, k := range []string{"storage.(*BlockRepository).getHash", "storage.(*BlockRepository).getTime", "storage.(*BlockRepository).getHeader"} {
+		if g := c.P.Fn(k); g != nil && g.Blocks != nil {
+			collect(g, map[*types.Var]bool{a.store: true, a.lastHeaders: true, a.height: true})
 		}
 	}
 	if len(cache) == 0 {
@@ -1559,6 +1582,11 @@ func (c *Check) ruleConstIndexGuarded(rule string, scope ...string) {
 					"the slice is tested to be long enough before element "+fmt.Sprint(k)+" is taken", "element "+fmt.Sprint(k)+" of a slice is taken without a test that the slice is that long: with an empty list (e.g. an empty header locator on a chain of height 0) the node panics")
 			}
 		}
+	}
+	if len(scope) == 1 && scope[0] == "storage" {
+		// zero on the confirmed tree: the storage readers index by variables behind length tests
+		c.Ok(rule, "storage#const-index-accesses", token.NoPos, "edge-cutset", "%d constant-index slice accesses in internal/storage, all behind a length test", n)
+		return
 	}
 	c.Min(rule, "constant-index slice accesses on the sync path", n, 1)
 }
